@@ -117,7 +117,9 @@ def gen_scenario(rng, cfg):
         return None
     total, prep, per = rng.choice([(5, 0, 0), (0, 0, 2), (5, 2, 2), (9, 3, 0), (0, 4, 3), (6, 6, 6)])
     return {"sig": case["sig"], "base": [(c["B"], c["A"]) for c in case["base"]], "pool": [(q["B"], q["A"]) for q in case["qs"][:3]], "cfg": list(cfg),
-            "budgets": [total, prep, per], "prep_delay": rng.choice([0.0, 0.0, 0.4, 1.0])}
+            "budgets": [total, prep, per],
+            # virtual duration of preprocessing: below, near and ABOVE the total budget (the remaining query budget then is negative)
+            "prep_delay": rng.choice([0.0, 0.0, 0.4, 1.0, 7.0, 12.0])}
 
 
 def _run_once(sc, jump_at, unknown_at, path, multi=False, with_budget=True):
@@ -314,6 +316,9 @@ def run(chk: Check, tier: str):
         sc = gen_scenario(rng, CONFIGS[i % len(CONFIGS)])
         i += 1
         if sc:
+            if len(scen) % 3 == 2:  # every third scenario: preprocessing outlasts the total budget (negative remaining query budget)
+                sc["budgets"] = rng.choice([[5, 0, 0], [5, 0, 2], [9, 0, 3]])
+                sc["prep_delay"] = float(sc["budgets"][0] + rng.choice([2, 6]))
             scen.append(sc)
     results = infer.pool_map(_exec_scenario, [(sc, 120 if tier == "quick" else 300) for sc in scen], chunksize=1)
     traces, idx = [], []
